@@ -227,9 +227,19 @@ def witnesses(names, p0, job):
 
 def jobs(tier, seed):
     out = []
-    for s in specs():
+    sp = specs()
+    if tier == "thorough":
+        import random
+        rng = random.Random(2000 + seed)
+        for i in range(24):
+            rs_ = catalog.random_spec(rng, name="rand%d_s%d" % (i, seed))
+            # the law is stated for pipes, valves and heat exchangers: other branch kinds stay, they only shape the flows
+            sp.append(rs_)
+    for s in sp:
         for fr in ("nikuradse", "swamee-jain", "colebrook"):
             for numba in (False, True):
+                if s["name"].startswith("rand") and (numba or fr == "colebrook") and fr != "nikuradse":
+                    continue
                 if fr != "nikuradse" and numba and tier == "quick" and s["name"].endswith("mix"):
                     continue
                 out.append({"name": "%s/%s/%s" % (s["name"], fr, "numba" if numba else "numpy"), "spec": s, "friction": fr,
